@@ -96,6 +96,8 @@ def memflush(o, binary, rng, n):
         for p in range(nk):
             for which in ("data", "index"):
                 cases.append({"entries": entries, "tomb": rng.random() < 0.5, "which": which, "pos": p})
+        for which in ("dataclose", "indexclose"):
+            cases.append({"entries": entries, "tomb": rng.random() < 0.5, "which": which, "pos": 0})
     work = common.scratch("C11-memflush")
     trace = os.path.join(work, "trace.ndjson")
     keys = concrete.key_family("be4", 6, rng)
@@ -130,8 +132,8 @@ def sysfaults(o, binary, rng, thorough):
     v2 = u.next()
     m2 = list(model)
     m2[1] = v2
-    for which in ("data", "index"):
-        for pos in (range(0, 4) if thorough else (0, 1, 3)):
+    for which in ("data", "index", "dataclose", "indexclose"):
+        for pos in ((range(0, 4) if thorough else (0, 1, 3)) if not which.endswith("close") else (0,)):
             steps = base + [{"op": "rotate"}, {"op": "barrier"}, {"op": "put", "k": 1, "v": v2, "pad": 60}, {"op": "rotate"}, {"op": "barrier"},
                             {"op": "failwrites", "match": "sstable_compaction", "which": which, "pos": pos}, {"op": "compact"},
                             {"op": "getall", "k": 4}, {"op": "close"}]
